@@ -17,11 +17,13 @@ sys.path.insert(0, VERIF)
 
 
 class CaseResult:
-    def __init__(self, labels=(), failure=None, sample=None, excluded=()):
+    def __init__(self, labels=(), failure=None, sample=None, excluded=(), units=1, nt_keys=None):
         self.labels = set(labels)
         self.failure = failure      # None or dict(kind=..., detail=..., ...)
         self.sample = sample        # short human-readable form of the case
         self.excluded = list(excluded)
+        self.units = units          # executions this case stands for (e.g. crash images)
+        self.nt_keys = nt_keys      # optional: distinct non-trivial sub-cases (suffixes of the case hash)
 
 
 def case_hash(case):
@@ -91,17 +93,20 @@ def shard_main(prop, tier, seed, shard, cases, outpath):
 
     def body(case):
         res = mod.run_case(case)
-        stats["evaluations"] += 1
+        stats["evaluations"] += getattr(res, "units", 1)
         for l in res.labels:
             stats["labels"][l] = stats["labels"].get(l, 0) + 1
         for x in res.excluded:
             stats["excluded"][x] = stats["excluded"].get(x, 0) + 1
         if mod.nontrivial(res.labels):
             h = case_hash(case)
-            if h not in stats["nt_hashes"]:
-                stats["nt_hashes"].add(h)
-                if len(stats["samples"]) < 3 and res.sample is not None:
-                    stats["samples"].append(res.sample)
+            new = h not in stats["nt_hashes"]
+            if getattr(res, "nt_keys", None):
+                for k in res.nt_keys:
+                    stats["nt_hashes"].add(h[:20] + ":" + str(k))
+            stats["nt_hashes"].add(h)
+            if new and len(stats["samples"]) < 3 and res.sample is not None:
+                stats["samples"].append(res.sample)
         if res.failure is not None:
             key = apply_known(mod, case, res, known)
             if key:
